@@ -293,3 +293,33 @@ Proof.
     destruct astart; [symmetry; apply rx_trailing_dotstar|].
     apply exists_tail_ext. intros t. symmetry. apply rx_trailing_dotstar.
 Qed.
+
+(* ------------------------------------------------------------------ flags *)
+(* the flagged semantics with s set and m clear is the reference semantics used for LIKE *)
+Lemma rx_match_f_s eqc ts aend : forall s, rx_match_f eqc true false ts aend s = rx_match eqc ts aend s.
+Proof.
+  induction ts as [|x t IH]; intros s.
+  - cbn. destruct aend; [destruct s; reflexivity|reflexivity].
+  - destruct x.
+    + cbn [rx_match_f rx_match]. destruct s as [|y s]; [reflexivity|]. now rewrite IH.
+    + cbn [rx_match_f rx_match dot_ok]. destruct s as [|y s]; [reflexivity|]. apply IH.
+    + induction s as [|y s IHs].
+      * cbn [rx_match_f rx_match]. now rewrite IH.
+      * change (rx_match_f eqc true false (TDotStar :: t) aend (y :: s)) with
+          (if rx_match_f eqc true false t aend (y :: s) then true else rx_match_f eqc true false (TDotStar :: t) aend s).
+        rewrite (rx_dotstar_unfold eqc t aend (y :: s)), IH, IHs. reflexivity.
+Qed.
+Lemma rx_search_f_unanchored f ml : forall s b, rx_search_f f false ml b s = exists_tail f s.
+Proof.
+  induction s as [|x s IH]; intros b; rewrite exists_tail_unfold; cbn [rx_search_f]; [reflexivity|]. now rewrite IH.
+Qed.
+Lemma rx_search_f_anchored_off f : forall s, rx_search_f f true false false s = false.
+Proof. induction s as [|x s IH]; cbn [rx_search_f]; [reflexivity|exact IH]. Qed.
+Theorem rx_flags_s_is_reference eqc r s : rx_is_match_f eqc true false r s = rx_is_match eqc r s.
+Proof.
+  unfold rx_is_match_f, rx_is_match. destruct (rx_astart r).
+  - destruct s as [|x s]; cbn [rx_search_f]; rewrite rx_match_f_s.
+    + now destruct (rx_match eqc (rx_toks r) (rx_aend r) []).
+    + rewrite rx_search_f_anchored_off. now destruct (rx_match eqc (rx_toks r) (rx_aend r) (x :: s)).
+  - rewrite rx_search_f_unanchored. apply exists_tail_ext. intros t. apply rx_match_f_s.
+Qed.
